@@ -15,7 +15,21 @@ EXTENDS Wire, TLC, FiniteSets
 
 VARIABLES mKind, mB, mLvl
 
-Alpha  == IF IOEnv.VERIF_MCFULL = "1" THEN {0, 1, 2, 3, 4, 6, 48, 128, 199} ELSE {0, 1, 2, 4, 48, 128, 199}
+Bug == IF "VERIF_BUG" \in DOMAIN IOEnv THEN IOEnv.VERIF_BUG ELSE "none"      \* a deliberately wrong design, selected by the orchestrator for non-vacuity runs
+(* non-vacuity: a compact parser that reduces instead of rejecting unless BOTH halves are out of range; a DER parser that also *)
+(* takes one-byte integers with the high bit set for positive                                                                               *)
+ParseCompactUT(b) ==
+  IF Bug # "compact_and" THEN ParseCompact(b, FALSE)
+  ELSE IF Len(b) # 2 * W THEN <<"err">>
+  ELSE LET r == OS2IP(SubSeq(b, 1, W))  s == OS2IP(SubSeq(b, W + 1, 2 * W)) IN
+       IF (r >= N /\ s >= N) \/ r % N = 0 \/ s % N = 0 THEN <<"err">> ELSE <<"ok", r % N, s % N>>
+ParseDerUT(b) ==
+  IF Bug = "der_negative_ok" /\ ParseDerSig(b)[1] = "err" /\ Len(b) = 8 /\ SubSeq(b, 1, 4) = <<48, 6, 2, 1>> /\ SubSeq(b, 6, 7) = <<2, 1>>
+     /\ b[5] \in 1..(N - 1) /\ b[8] \in 1..(N - 1)
+  THEN <<"ok", b[5], b[8]>>                                                       \* one-byte integers with the high bit set taken as positive
+  ELSE ParseDerSig(b)
+
+Alpha  == IF IOEnv.VERIF_MCFULL = "1" THEN {0, 1, 2, 3, 4, 6, 48, 128, 199} ELSE {0, 1, 2, 6, 48, 128, 199}
 MaxLen == IF IOEnv.VERIF_MCFULL = "1" THEN 8 ELSE 8
 RS     == 1..(N - 1)
 Built  == TLCEval({BuildDerSig(r, s) : r \in RS, s \in RS})
@@ -45,15 +59,16 @@ Next == \/ mKind = "der" /\ Len(mB) < MaxLen /\ mB' \in {mB \o <<x>> : x \in Alp
                  mB' = <<mB[1], mB[2], mB[3], mB[4], mB[5], mB[6], mB[7], r1, r2, s1, s2>>
 
 DerInv == mKind = "der" =>
-  LET d == ParseDerSig(mB) IN
+  LET d == ParseDerUT(mB) IN
   /\ (d[1] = "ok") <=> (mB \in Built)                            \* accepts exactly the image of the builder
   /\ (d[1] = "ok") => BuildDerSig(d[2], d[3]) = mB /\ d[2] \in RS /\ d[3] \in RS
 
 BuildInv == mKind = "der" /\ mB = <<>> =>
   /\ Cardinality(Built) = (N - 1) * (N - 1)                      \* one encoding per (r, s)
+  /\ \E r \in RS, s \in RS : LET b == BuildDerSig(r, s) IN Len(b) <= MaxLen /\ \A i \in 1..Len(b) : b[i] \in Alpha   \* the explored language contains accepted strings
   /\ \A r \in RS, s \in RS : ParseDerSig(BuildDerSig(r, s)) = <<"ok", r, s>>
   /\ \A r \in RS, s \in RS : ParseCompact(BuildCompact(r, s), FALSE) = <<"ok", r, s>>
-  /\ \A b1 \in 0..255, b2 \in 0..255 : LET p == ParseCompact(<<b1, b2>>, FALSE) IN
+  /\ \A b1 \in 0..255, b2 \in 0..255 : LET p == ParseCompactUT(<<b1, b2>>) IN
         (p[1] = "ok") <=> (b1 \in RS /\ b2 \in RS)
 
 BipInv == mKind = "bip" /\ mLvl >= 1 =>
